@@ -5,6 +5,26 @@ import ast
 
 from __main__ import Fact, const_num, lean_bool, lean_list, lean_str
 
+import importlib.util
+import os
+import sys
+
+
+def _load_norm():
+    """tools/extractors/normalise_rpc.py, loaded once per process under a name of its own (sys.path is left alone)."""
+    name = "jrv_normalise_rpc"
+    if name not in sys.modules:
+        spec = importlib.util.spec_from_file_location(
+            name, os.path.join(os.path.dirname(os.path.abspath(__file__)), "normalise_rpc.py"))
+        mod = importlib.util.module_from_spec(spec)
+        sys.modules[name] = mod
+        spec.loader.exec_module(mod)
+    return sys.modules[name]
+
+
+norm = _load_norm()
+
+
 PROPERTIES = ["C17"]
 
 
@@ -282,11 +302,17 @@ def _content_type_from_config(fn, call_names):
 def _schemes(fn):
     """`schema not in ("http", "https")` and the "unix+" prefix of ServerProxy.__init__."""
     allowed = prefix = None
+    # canonical form of the refusal test: `s not in (a, b)` and `not (s == a or s == b)` are `s != a and s != b`
+    fn = norm.clone(fn)
+    norm.membership_tests(fn)
+    norm.negation_normal(fn)
     for n in ast.walk(fn):
-        if isinstance(n, ast.Compare) and isinstance(n.ops[0], ast.NotIn) and isinstance(n.comparators[0], (ast.Tuple, ast.List)):
-            vals = [e.value for e in n.comparators[0].elts if isinstance(e, ast.Constant)]
-            if vals and all(isinstance(v, str) for v in vals):
-                allowed = vals
+        if isinstance(n, ast.If) and any(isinstance(s, ast.Raise) for s in n.body):
+            parts = n.test.values if isinstance(n.test, ast.BoolOp) and isinstance(n.test.op, ast.And) else [n.test]
+            if all(isinstance(p, ast.Compare) and len(p.ops) == 1 and isinstance(p.ops[0], ast.NotEq) and isinstance(p.left, ast.Name)
+                   and isinstance(p.comparators[0], ast.Constant) and isinstance(p.comparators[0].value, str) for p in parts) \
+                    and len(set(p.left.id for p in parts)) == 1:
+                allowed = [p.comparators[0].value for p in parts]
         if isinstance(n, ast.Call) and isinstance(n.func, ast.Attribute) and n.func.attr == "startswith" and n.args \
                 and isinstance(n.args[0], ast.Constant) and isinstance(n.args[0].value, str):
             prefix = n.args[0].value
@@ -296,6 +322,7 @@ def _schemes(fn):
 
 
 def facts(src):
+    src = norm.nsource(src)
     sc = src.func("jsonrpc", "TransportMixIn.send_content")
     post = src.func("SimpleJSONRPCServer", "SimpleJSONRPCRequestHandler.do_POST")
     cgi = src.func("SimpleJSONRPCServer", "CGIJSONRPCRequestHandler.handle_jsonrpc")
